@@ -226,7 +226,22 @@ func c07Eth(c *eng.Ctx, r *eng.Report) {
 		cmp := callsNamed(fn, "service.compareTx")
 		snd := callsNamed(fn, "eth_tx.Sender")
 		var bad []string
-		if len(signer) != 1 || len(dec) != 1 || len(conv) != 1 || len(cmp) != 1 || len(snd) != 1 {
+		// the payload is decoded by a decoder that refuses bytes after the first value: rlp.DecodeBytes (C08 R8.3),
+		// directly or in a helper; the stream form rlp.Decode reads one value and ignores the rest
+		if len(dec) == 0 {
+			for _, s2 := range eng.Sites(fn) {
+				callee := s2.Common().StaticCallee()
+				if callee == nil || !eng.InMod(callee) || callee.Blocks == nil {
+					continue
+				}
+				if len(callsNamed(callee, "storage/rlp.Decode")) > 0 && len(callsNamed(callee, "storage/rlp.DecodeBytes")) == 0 {
+					bad = append(bad, "the signed payload is decoded by "+eng.FuncName(callee)+" with the stream decoder rlp.Decode, which reads one RLP value and ignores whatever follows: tx.ExtraData = signed payload || arbitrary bytes is admitted under the original hash (the hash covers only the re-encoded signed fields)")
+				}
+			}
+		}
+		if len(bad) > 0 {
+			// reported above
+		} else if len(signer) != 1 || len(dec) != 1 || len(conv) != 1 || len(cmp) != 1 || len(snd) != 1 {
 			bad = append(bad, fmt.Sprintf("shape not recognised: signer=%d decode=%d convert=%d compare=%d sender=%d", len(signer), len(dec), len(conv), len(cmp), len(snd)))
 		} else {
 			if d := eng.Desc(signer[0].Call.Args[0]); d != "common.GetChainId(height)" {
